@@ -34,6 +34,10 @@ def cases(tier):
             for closer in CLOSERS:
                 out.append({'fn': 'run_race', 'id': f'race/{mix}/{peer}/close-{closer}',
                             'params': {'mix': mix, 'peer': peer, 'closer': closer, 'preempt': pre}})
+    # nobody connected yet: both callers run into connect() at once
+    for mix in ('distinct', 'same'):
+        out.append({'fn': 'run_race', 'id': f'race/{mix}/normal/fresh-connect', 'params': {'mix': mix, 'peer': 'normal', 'closer': 'after',
+                                                                                       'preempt': pre, 'fresh': True}})
     return out
 
 
@@ -64,12 +68,19 @@ def _run_race(env, p, cosched, fc):
             import time
             return getattr(time, name)
 
+    connections = []
+
     def no_connect(*a, **k):
+        if p.get('fresh'):
+            cosched.yield_point('connect')
+            c = PeerIO()
+            connections.append(c)
+            return c
         raise ConnectionRefusedError('no peer')
 
     fc.Event, fc.RLock, fc.queue = cosched.CoEvent, cosched.CoRLock, cosched.CoQueueModule()
     fc.current_thread, fc.time, fc.AsynConn = cosched.current_thread, Clock(), no_connect
-    fc.mkthread = lambda fn, *a, **k: cosched.ThreadHandle(s.spawn('conn', fn, *a))
+    fc.mkthread = lambda fn, *a, **k: cosched.ThreadHandle(s.spawn('w%d-%s' % (len(s.threads), getattr(fn, '__name__', 'conn').strip('_')), fn, *a))
     reqs = MIXES[p['mix']]
     K = 'C11/race'
 
@@ -86,6 +97,11 @@ def _run_race(env, p, cosched, fc):
                 raise BrokenPipeError('connection lost')
             self.sent.append(line)
             action, ident, data = decode_msg(line.strip())
+            if action == 'describe':
+                acc = {k: {'description': k, 'datainfo': {'type': 'double'}, 'readonly': False} for k in ('a', 'b')}
+                self.lines.append(encode_msg_frame('describing', '.', {'equipment_id': 'eq', 'description': 'd', 'modules': {
+                    'm': {'description': 'm', 'interface_classes': [], 'accessibles': acc}}}))
+                return
             self.nreq += 1
             n = self.nreq
             if action == 'ping':
@@ -104,6 +120,10 @@ def _run_race(env, p, cosched, fc):
             value = data if action == 'change' else float(n)
             self.lines.append(encode_msg_frame(REQUEST2REPLY[action], ident, [value, {'t': 1.0, 'n': n}]))
 
+        def writeline(self, line):
+            cosched.yield_point('send')
+            self.lines.append(b'ISSE&SINE2020,SECoP,V2019-09-16,v1.0\n')
+
         def readline(self, timeout=None):
             cosched.yield_point('readline')
             while not self.lines:
@@ -120,13 +140,16 @@ def _run_race(env, p, cosched, fc):
             self.closed = True
 
     cl = fc.SecopClient('fake://x', log=None)
-    io = cl.io = PeerIO()
-    cl._running = True
     cl.activate = False
-    cl.online = True
-    cl.modules = {'m': {'parameters': {'a': {'datatype': FloatRange()}, 'b': {'datatype': FloatRange()}}}}
-    cl.internal = {'m:a': ('m', 'a'), 'm:b': ('m', 'b')}
-    cl.identifier = {('m', 'a'): 'm:a', ('m', 'b'): 'm:b'}
+    if p.get('fresh'):
+        io = None
+    else:
+        io = cl.io = PeerIO()
+        cl._running = True
+        cl.online = True
+        cl.modules = {'m': {'parameters': {'a': {'datatype': FloatRange()}, 'b': {'datatype': FloatRange()}}}}
+        cl.internal = {'m:a': ('m', 'a'), 'm:b': ('m', 'b')}
+        cl.identifier = {('m', 'a'): 'm:a', ('m', 'b'): 'm:b'}
     unhandled = []
     errors = []
     cl.register_callback(None, unhandledMessage=lambda a, i, d: unhandled.append((a, i, d)) or True,
@@ -164,10 +187,11 @@ def _run_race(env, p, cosched, fc):
             closed['raised'] = e
         closed['at'] = s.now
 
-    lt_tx = s.spawn('tx', cl._SecopClient__txthread)
-    lt_rx = s.spawn('rx', cl._SecopClient__rxthread)
-    cl._txthread = cosched.ThreadHandle(lt_tx)
-    cl._rxthread = cosched.ThreadHandle(lt_rx)
+    if not p.get('fresh'):
+        lt_tx = s.spawn('tx', cl._SecopClient__txthread)
+        lt_rx = s.spawn('rx', cl._SecopClient__rxthread)
+        cl._txthread = cosched.ThreadHandle(lt_tx)
+        cl._rxthread = cosched.ThreadHandle(lt_rx)
     for i in range(len(reqs)):
         s.spawn(f'c{i}', caller(i))
     s.spawn('closer', closer)
@@ -178,7 +202,7 @@ def _run_race(env, p, cosched, fc):
         env.note('race/preempted')
     for t in s.threads:
         if t.exc is not None:
-            if t.name == 'tx' and isinstance(t.exc, OSError):
+            if 'tx' in t.name and isinstance(t.exc, OSError):
                 continue     # the transmit thread dies with the connection; the receive thread notices and disconnects
             env.fail(K + f'/{t.name}-thread-raised/' + type(t.exc).__name__, repr(t.exc))
     # the shutdown itself completes without raising and leaves no worker thread running
@@ -186,6 +210,9 @@ def _run_race(env, p, cosched, fc):
     env.check(all(t.state == 'done' for t in s.threads), K + '/thread-still-running', [(t.name, t.state) for t in s.threads])
     env.check(len(outcome) == len(reqs), K + '/caller-without-outcome', sorted(outcome))
     quiet = p['closer'] == 'after'
+    if p.get('fresh'):
+        env.check(len(connections) == 1, K + '/more-than-one-connection-opened-for-one-client', len(connections))
+        io = connections[0] if connections else PeerIO()
     replies = []
     for i, o in sorted(outcome.items()):
         rq = reqs[i]
